@@ -47,6 +47,10 @@ ASSUMPTIONS = ['SVD-based steps (swap_sites with truncation, compress, group_spl
 TOL = 1e-9
 INF_KINDS = [('SpinHalf', None), ('SpinHalf', 'parity'), ('Spin1', None), ('Spin1', 'parity'), ('Fermion', None),
              ('Fermion', 'parity'), ('Boson2', None), ('SHFermion', (None, None))]
+MIXED_FERMIONS = [(['Fermion', None], ['SHFermion', [None, None]]), (['Fermion', 'N'], ['SHFermion', ['N', None]]),
+                  (['Fermion', 'parity'], ['SHFermion', ['parity', None]]), (['Fermion', 'N'], ['SHFermion', ['N', 'Sz']]),
+                  (['Fermion', 'parity'], ['SHFermion', ['parity', 'Sz']]),
+                  (['Fermion', 'parity'], ['SHFermion', ['parity', 'parity']])]
 STEPS = ['local_op', 'local_op', 'local_op2', 'product_op', 'local_term', 'swap', 'permute', 'add', 'compress',
          'enlarge_chi', 'group', 'inversion', 'convert']
 
@@ -72,6 +76,25 @@ def gen_cases(rng, n, quick):
             if max(case['chi']) == 1:
                 case['chi'][0] = 2
             cases.append(case)
+            continue
+        if rng.random() < 0.2:
+            # mixed fermionic chain: neighbouring fermionic sites of DIFFERENT type (different JW_exponent vectors),
+            # exercised by swap_sites / permute_sites against the dense fermionic permutation
+            a, b = rng.choice(MIXED_FERMIONS)
+            Lm = rng.randint(2, 4)
+            kinds = [a if (i + k0) % 2 == 0 else b for k0 in [rng.randint(0, 1)] for i in range(Lm)]
+            if rng.random() < 0.3 and Lm >= 3:
+                kinds[rng.randrange(Lm)] = rng.choice([a, b])
+            base = dict(kind='full', seed=rng.getrandbits(31), complex=rng.random() < 0.3, sites={'kinds': kinds},
+                        form=rng.choice([None, 'A', 'B', 'C']), normalize=rng.random() < 0.5, density=1.0)
+            other = dict(kind='full', seed=rng.getrandbits(31), complex=base['complex'], sites=base['sites'],
+                         form='B', normalize=True, density=1.0)
+            steps = [rng.choice(['swap', 'permute', 'swap', 'permute', 'local_op', 'inversion'])
+                     for _ in range(rng.randint(1, 3))]
+            if not any(x in ('swap', 'permute') for x in steps):
+                steps[0] = rng.choice(['swap', 'permute'])
+            cases.append(dict(kind='finite', seed=rng.getrandbits(31), base=base, other=other, sites=base['sites'],
+                              steps=steps))
             continue
         kind = rng.choice(['full', 'full', 'randB', 'randB', 'singlets'])
         base = mc.gen_case(rng, [kind], Lmax=Lmax, dmax=128 if quick else 512)
